@@ -147,9 +147,13 @@ def replay_file(path, quiet=False):
         rp = json.load(f)
     mod = load_module(rp["property"])
     res = mod.run(rp["scenario"])
-    for v in res.get("violations", []):
-        if v["clause"] == rp["clause"]:
-            return True, v
+    same = [v for v in res.get("violations", []) if v["clause"] == rp["clause"]]
+    if same:
+        # prefer the violation that reproduces the recorded observation exactly
+        for v in same:
+            if json.loads(json.dumps(v.get("observed"), default=str)) == rp.get("observed") and v.get("step") == rp.get("step"):
+                return True, v
+        return True, same[0]
     return False, None
 
 
